@@ -23,6 +23,15 @@ import re as _re  # noqa: E402
 from crosshair import core as _core  # noqa: E402
 from crosshair.tracers import NoTracing as _NoTracing  # noqa: E402
 
+# a harness may install a callable here to render a symbolic number as a placeholder token it can map back
+SYM_RENDER = [None]
+
+
+def _render(v):
+    f = SYM_RENDER[0]
+    return f(v) if f is not None else '<sym>'
+
+
 _SPEC = _re.compile(r'%(\([^)]*\))?[-+ #0]*(\*|\d+)?(\.(\*|\d+))?[hlL]?([diouxXeEfFgGcrsa%])')
 _orig_percent = _core._PATCH_REGISTRATIONS.get(str.__mod__)
 
@@ -42,7 +51,7 @@ def _percent(self, other):
                     out.append(self[last:m.start()])
                     last = m.end()
                     if sym and m.group(5) in 'diouxXeEfFgGsra':
-                        out.append('<sym>')
+                        out.append(_render(a).replace('%', '%%'))
                     else:
                         out.append(m.group(0))
                         new_args.append(a)
@@ -81,17 +90,17 @@ def _is_symnum(v):
 
 
 def _fs_str(self):
-    self.formatted = '<sym>' if _is_symnum(self.value) else str(self.value)
+    self.formatted = _render(self.value) if _is_symnum(self.value) else str(self.value)
     return ""
 
 
 def _fs_format(self, fmt):
-    self.formatted = '<sym>' if _is_symnum(self.value) else format(self.value, fmt)
+    self.formatted = _render(self.value) if _is_symnum(self.value) else format(self.value, fmt)
     return ""
 
 
 def _fs_repr(self):
-    self.formatted = '<sym>' if _is_symnum(self.value) else repr(self.value)
+    self.formatted = _render(self.value) if _is_symnum(self.value) else repr(self.value)
     return ""
 
 
